@@ -50,6 +50,8 @@ def gen_frames(rng, framer, units, n, ident_p=0.15):
         if framer == 'binary' and framelib.has_delim(f):
             continue
         frames.append(f)
+        if rng.random() < 0.12:
+            frames.append(list(f))       # the master repeats the request, byte for byte (a retry, or a periodic write)
     return frames
 
 
